@@ -25,11 +25,14 @@ class Unsupported(Exception):
 class Buf:
     """a mutable numeric buffer: length term + element closure (Int term -> Real term)"""
 
-    __slots__ = ("n", "elem", "owner", "ident", "mutable", "sct", "is_var")
+    __slots__ = ("n", "elem", "owner", "ident", "mutable", "sct", "is_var", "prov", "symid", "pure_stack")
 
     def __init__(self, n, elem, owner="fresh", mutable=True):
         self.sct = None
         self.is_var = False
+        self.prov = ()  # CasADi: ids of the symbols the expression depends on, in order of first appearance
+        self.symid = None  # CasADi: the symbol this value *is* (pure symbol vector)
+        self.pure_stack = False  # CasADi: a stack of distinct pure symbols
         self.n = T.lift(n, T.INT)
         self.elem = elem
         self.owner = owner  # 'fresh' | ('in', name) | ('heap', desc)
@@ -83,12 +86,14 @@ def mk_vec(dialect, kind, n, elem, owner="fresh", symtype=None):
 class SSeq:
     """immutable sequence of symbolic length; elem(i) -> any value"""
 
-    __slots__ = ("n", "elem", "desc")
+    __slots__ = ("n", "elem", "desc", "entries_of", "symtype")
 
     def __init__(self, n, elem, desc=""):
         self.n = T.lift(n, T.INT)
         self.elem = elem
         self.desc = desc
+        self.entries_of = None
+        self.symtype = None
 
     def __repr__(self):
         return f"<SSeq {self.desc} n={self.n!r}>"
@@ -115,9 +120,10 @@ class ObjRef:
 
 
 class LocalObj:
-    __slots__ = ("cls", "attrs", "ident", "ref")
+    __slots__ = ("cls", "attrs", "ident", "ref", "symbols")
 
     def __init__(self, cls, attrs=None, ref=None):
+        self.symbols = None
         self.cls = cls
         self.attrs = {} if attrs is None else attrs
         self.ident = next(_ids)
